@@ -85,6 +85,10 @@ type PipePlan struct {
 	SinkDown0Ms int          `json:"sink_down0_ms,omitempty"`
 	Profile   string         `json:"profile"`
 	StatsPolls []int         `json:"stats_polls,omitempty"` // phases after which the stats API is read (all if empty)
+	// MidPolls: the stats API is also read in the middle of phases (while
+	// datagrams are in flight); such readings are only required to be monotone
+	// and never ahead of the next quiescent reading
+	MidPolls []MidPoll `json:"mid_polls,omitempty"`
 }
 
 // PhaseSnap is what the stats API said at the end of a phase.
@@ -101,6 +105,7 @@ type PhaseSnap struct {
 type PipeObs struct {
 	Published  []Published
 	Recv       []simrt.Received
+	MidSnaps   []PhaseSnap // stats readings taken in the middle of phases
 	Snaps      []PhaseSnap
 	PanicTask  string
 	PanicVal   string
@@ -389,6 +394,12 @@ func encodeFlowInOrder(d *Delivery, addr []byte, cache model.TplCache) []byte {
 	return b
 }
 
+// MidPoll is one reading of the stats API AtUs after the opening of Phase.
+type MidPoll struct {
+	Phase int `json:"phase"`
+	AtUs  int `json:"at_us"`
+}
+
 // droppable: losing this delivery at the socket changes nothing the model
 // relies on later (clean, data only).
 func droppable(p *PipePlan, d *Delivery) bool {
@@ -431,6 +442,7 @@ func runPipe(p *PipePlan, ch *simrt.Choices, trace bool, adopt map[string][]byte
 		sim.Net.QueueCap = c.SockQueue
 	}
 	sim.FS.Chunk = c.DiskChunk
+	sim.FS.ReadDelay = time.Duration(c.DiskReadMs) * time.Millisecond
 	for k, v := range adopt {
 		sim.FS.Put(k, v)
 	}
@@ -538,6 +550,35 @@ func runPipe(p *PipePlan, ch *simrt.Choices, trace bool, adopt map[string][]byte
 				_ = ok
 				donePhase[d.Phase]++
 				simrt.Yield(-21)
+			}
+		})
+	}
+	// stats readings while traffic is in flight
+	if len(p.MidPolls) > 0 {
+		polls := append([]MidPoll(nil), p.MidPolls...)
+		sort.SliceStable(polls, func(a, b int) bool {
+			if polls[a].Phase != polls[b].Phase {
+				return polls[a].Phase < polls[b].Phase
+			}
+			return polls[a].AtUs < polls[b].AtUs
+		})
+		sim.GoNamed("stats-poller", true, func() {
+			for _, mp := range polls {
+				if mp.Phase < 0 || mp.Phase >= len(gates) {
+					continue
+				}
+				simrt.Yield(-23)
+				<-gates[mp.Phase]
+				simrt.Yield(-23)
+				if wait := opened[mp.Phase] + time.Duration(mp.AtUs)*time.Microsecond - sim.Now(); wait > 0 {
+					simrt.Sleep(wait)
+				}
+				if sim.Exited || sim.MainDone || obs.Signaled {
+					return
+				}
+				st, e := fetchStats(sim)
+				obs.MidSnaps = append(obs.MidSnaps, PhaseSnap{Phase: mp.Phase, At: sim.Now(), Seq: sim.Seq, Stats: st, Err: e})
+				simrt.Yield(-23)
 			}
 		})
 	}
